@@ -214,7 +214,7 @@ def main():
     if not tops:
         print(f'CHECKER-ERROR property={prop} no contracts registered')
         sys.exit(3)
-    timeout_ms = int(os.environ.get('PYVC_TIMEOUT_MS') or 0) or (8000 if a.tier == 'quick' else 90000)
+    timeout_ms = int(os.environ.get('PYVC_TIMEOUT_MS') or 0) or (20000 if a.tier == "quick" else 90000)
     ncpu = int(os.environ.get('PYVC_PROCS') or 0) or os.cpu_count() or 4
     outer = max(1, min(len(tops), 5, max(1, ncpu // 2)))
     inner = max(2, (ncpu - 1) // outer)
